@@ -468,6 +468,35 @@ def _expanded_test(prog: Program, cq: str, f, test: ast.expr) -> List[ast.expr]:
     return out
 
 
+def ep_union_pass(prog: Program) -> RuleResult:
+    """The union form of or_ evaluates its right operand a second time on its own.  A false result of that pass says that the right operand is
+    false for a binding - not that the disjunction is.  Whoever sits above (a conjunction passes falsity on, a negation flips it) would take
+    it for a verdict of the disjunction."""
+    r = RuleResult("EP-UNION-PASS", "the union form of or_ reports falsity only where both operands were evaluated", floor=1)
+    un = prog.cls("symbolic.Union")
+    s = summary_of(prog, un)
+    left = {st.id for st in s.sites if "self.left" in st.recv_roles}
+    right = {st.id for st in s.sites if "self.right" in st.recv_roles}
+    bad = None
+    n = 0
+    for e in s.emissions:
+        n += 1
+        fl = e.flag.flag if e.flag is not None else None
+        if fl == ("const", False):
+            continue
+        if any((str(g[2]).endswith(".is_true") and g[1] is True) or (str(g[2]).endswith(".is_false") and g[1] is False) for g in e.guards):
+            continue
+        if not (e.bindings.must & left and e.bindings.must & right):
+            bad = bad or (e, fl)
+    if n < 2:
+        raise AnalysisError("EP-UNION-PASS: the union evaluation has fewer than two emissions")
+    r.check(bad is None, "Union#false-means-both-false", un.loc, f"{n} emissions of the union evaluation",
+            "a result is flagged false only with bindings under which both operands were evaluated",
+            f"the union evaluation ({bad[0].func if bad else ''}) emits a result flagged false from {_flag_label(bad[1], s) if bad else ''} alone: "
+            "not_(and_(or_(x.n > 3, y.n > 100), x.n > 0)) flips that into rows with x unbound (every x is returned)")
+    return r
+
+
 def ep_selected(prog: Program) -> RuleResult:
     """The values of the selected expressions are data.  The conditions decide which assignments are solutions (EP-FILTER); once an
     assignment passed them, the row is reported whatever the selected values are - 0, '', False and empty collections included.  So the
@@ -840,6 +869,23 @@ def ep_quant(prog: Program) -> RuleResult:
     r.check(verdict_ok, "Exists._evaluate__#one-verdict-per-binding", site(f), why_v, "a binding is reported true or false, never both",
             f"{why_v}: when a failing value of the quantified expression is enumerated before a satisfying one, the binding is reported true and then false; under not_(and_(exists(...), c)) "
             "the false report is flipped into a row that violates the condition")
+    # an empty quantified domain: the condition has no result at all, the loops above do not run - and "there is a value that ..." is false.
+    # Some emission flagged false must lie outside every loop (it is then guarded by "nothing was seen").
+    from ..cfg import CFG as _CFG
+
+    cfg_ex = _CFG(f.node)
+    outside = []
+    for n_ in cfg_ex.nodes:
+        if n_.stmt is None or n_.loops:
+            continue
+        for part in cfg_ex._own_parts(n_):
+            for y in ast.walk(part):
+                if isinstance(y, ast.Yield) and isinstance(y.value, ast.Call) and len(y.value.args) >= 2 and isinstance(y.value.args[1], ast.Constant) and y.value.args[1].value is True:
+                    outside.append(n_)
+    r.check(bool(outside), "Exists._evaluate__#empty-condition-is-false", site(f), f"{len(outside)} false emission(s) outside the loops",
+            "when the condition has no result at all, one result flagged false is emitted for the incoming bindings",
+            "every emission of Exists lies inside a loop over results of its condition: over an empty domain it emits nothing at all, and an enclosing else-if "
+            "(or_(exists(y, ...), c) with y over []) never evaluates its other branch")
     # the quantified expression may be an attribute chain that enumerates on its way (shelf.boxes -> flatten -> box.parts): the nodes it is
     # computed from are bound per element and belong to the key, otherwise all boxes of a shelf share one answer
     id_lists = set()
@@ -944,4 +990,4 @@ def run(prog: Program, tier: str) -> List[RuleResult]:
     from .c03 import domain_cache
 
     _cache.clear()
-    return [ep_thread(prog), ep_neg(prog), ep_filter(prog), ep_selected(prog), ep_operand(prog), domain_cache(prog), ep_universal(prog), ep_empty(prog), ep_quant(prog)]
+    return [ep_thread(prog), ep_neg(prog), ep_filter(prog), ep_selected(prog), ep_union_pass(prog), ep_operand(prog), domain_cache(prog), ep_universal(prog), ep_empty(prog), ep_quant(prog)]
